@@ -1,5 +1,5 @@
 """Claims per property (imported by sa.registry). Each claim names the decided clauses only."""
-from .registry import claim, decline  # noqa: F401
+from .claimapi import claim, decline  # noqa: F401
 
 claim(
     'C07',
